@@ -2061,10 +2061,10 @@ class C02live(SessionProp):
     """the live-session part of C02 (run as extra shards of the C02 check)"""
     id = None
     monitor = staticmethod(M.mon_wire)
-    tables = [T_RETRY, T_MIX, T_Q2, T_PERS, T_SUB, T_CLOSE]
+    tables = [T_RETRY, T_MIX, T_Q2, T_PERS, T_SUB, T_CLOSE, T_PUBWIN, T_PERS]
     table = T_MIX
     max_words = 35
-    quick_examples = 600
+    quick_examples = 1200
     thorough_examples = 15000
     pre_kwargs = dict(keepalives=(0, 0, 7))
 
